@@ -123,13 +123,20 @@ func vfC37Gen(rt *rapid.T) vfC37Case {
 		mb := rapid.IntRange(0, 3).Draw(rt, "mb") == 0
 		c.Chans = append(c.Chans, vfC37Chan{Len: c.MaxLen + d, MB: mb})
 	}
-	c.ConnectSubs = rapid.SampledFrom([]int{0, 0, 0, 0, 1, 1, 2, 3, 4, 5}).Draw(rt, "connectSubs")
-	if c.ConnectSubs > c.Limit+1 {
-		c.ConnectSubs = c.Limit + 1
+	switch rapid.IntRange(0, 11).Draw(rt, "connectKind") {
+	case 0:
+		c.ConnectSubs = c.Limit + 1 // over the limit: the connect itself must be refused
+	case 1, 2:
+		c.ConnectSubs = c.Limit
+	case 3, 4, 5:
+		c.ConnectSubs = rapid.IntRange(0, c.Limit).Draw(rt, "connectSubs")
 	}
 	n := rapid.IntRange(2, 16).Draw(rt, "nsteps")
 	for i := 0; i < n; i++ {
-		k := rapid.SampledFrom([]int{0, 0, 0, 0, 0, 0, 1, 1, 1, 2, 2, 3, 4, 5}).Draw(rt, "kind")
+		k := rapid.SampledFrom([]int{0, 0, 0, 0, 0, 0, 1, 1, 1, 2, 2, 3, 4, 5, 5}).Draw(rt, "kind")
+		if i < c.Limit && rapid.IntRange(0, 3).Draw(rt, "frontload") != 0 {
+			k = 0 // fill the slots first so that later attempts meet a full connection with subscribes in flight
+		}
 		s := vfC37Step{Kind: k}
 		switch k {
 		case 0:
@@ -201,6 +208,25 @@ func vfC37Run(t *testing.T, cs vfC37Case, out *vfC37Out, isKnown func(string) bo
 			return r, nil
 		}
 		var parked []*vfC37Parked
+		// Whatever way the case ends, no subscribe may stay in flight when the node shuts down: close() waits 5 s (virtual)
+		// per in-flight reservation holding connectMu while timed-out waits spawn further close() calls that block on
+		// that mutex - a synctest bubble cannot wait that out. Complete them all together before anything waits.
+		defer func() {
+			var dones []chan struct{}
+			for _, p := range parked {
+				done := make(chan struct{})
+				dones = append(dones, done)
+				go func() {
+					defer close(done)
+					p.cb(SubscribeReply{Options: SubscribeOptions{Type: p.typ}}, nil)
+				}()
+			}
+			parked = nil
+			for _, d := range dones {
+				<-d
+			}
+			vfSettle()
+		}()
 		nextAsync := false
 		var curID uint32
 		handlerCalls := 0
@@ -518,6 +544,22 @@ func vfC37Run(t *testing.T, cs vfC37Case, out *vfC37Out, isKnown func(string) bo
 				}
 				label("unsubscribed")
 			case 5:
+				// No subscribe may be in flight during a burst: a slow close would wait 5 s (virtual) per reservation while
+				// further close() attempts block on connectMu, which a synctest bubble cannot wait out.
+				for len(parked) > 0 {
+					if m := complete(parked[0], false, where+" (completing parked subscribes first)"); m != "" {
+						if m == "KNOWN" {
+							return ""
+						}
+						return m
+					}
+					if m := invariant(where); m != "" {
+						return m
+					}
+				}
+				if c, _ := closed(); c {
+					continue
+				}
 				if m := vfC37Burst(w, conn, cs, s, where, out); m != "" {
 					return m
 				}
@@ -526,14 +568,30 @@ func vfC37Run(t *testing.T, cs vfC37Case, out *vfC37Out, isKnown func(string) bo
 				return m
 			}
 		}
-		if c, _ := closed(); c {
-			// close() waits up to 5 s (virtual) for every in-flight subscribe while holding connectMu; a callback completed
-			// inside that window spawns a second close() that blocks on the mutex, which a synctest bubble cannot wait out.
-			time.Sleep(time.Duration(6*(len(parked)+1)) * time.Second)
-			vfSettle()
-		}
 		// complete everything still parked, in the drawn order
 		for i := 0; len(parked) > 0; i++ {
+			if c, _ := closed(); c {
+				// close() waits up to 5 s (virtual time) for every in-flight subscribe while holding connectMu, and every
+				// timeout spawns another close() that blocks on that mutex - which a synctest bubble can never wait out.
+				// So on a closed connection all parked callbacks are completed together, before anything waits.
+				var dones []chan struct{}
+				for j := 0; len(parked) > 0; j++ {
+					k := cs.FinalOrder[(i+j)%len(cs.FinalOrder)] % len(parked)
+					p := parked[k]
+					parked = append(parked[:k:k], parked[k+1:]...)
+					done := make(chan struct{})
+					dones = append(dones, done)
+					go func() {
+						defer close(done)
+						p.cb(SubscribeReply{Options: SubscribeOptions{Type: p.typ}}, nil)
+					}()
+				}
+				for _, d := range dones {
+					<-d
+				}
+				vfSettle()
+				break
+			}
 			p := parked[cs.FinalOrder[i%len(cs.FinalOrder)]%len(parked)]
 			where := fmt.Sprintf("final completion of subscribe #%d (%q)", p.id, p.ch)
 			if m := complete(p, false, where); m != "" {
